@@ -65,7 +65,9 @@ def validate_batch(traces, cfg=None, module='FBTrace.tla', timeout=1800, workdir
         tf = os.path.join(workdir, 'traces.ndjson')
         with open(tf, 'w') as f:
             for t in traces:
-                f.write(json.dumps(t, separators=(',', ':')) + '\n')
+                f.write(json.dumps({'id': t['id'], 'events': [{k: v for k, v in e.items() if k != 'tb'}
+                                                              for e in t['events']]},
+                                   separators=(',', ':')) + '\n')
         env = dict(os.environ, TRACE_FILE=tf)
         cmd = tlc_cmd(cfg, module, 1, metadir=os.path.join(workdir, 'meta'), short=True)
         p = subprocess.run(cmd, cwd=SPEC_DIR, env=env, stdout=subprocess.PIPE, stderr=subprocess.STDOUT,
